@@ -64,7 +64,7 @@ def main():
                 res = {}
                 # the first check is the one for the property the change breaks; the others are
                 # neighbours that may also notice: quick tier only
-                for tier in (["quick", "thorough"] if c == checks[0] else ["quick"]):
+                for tier in (["quick", "thorough"] if (c == checks[0] and os.environ.get("SEED_THOROUGH")) else ["quick"]):
                     t0 = time.time()
                     rc, out = sh("./check %s --tier %s" % (c, tier), cwd="/verif", timeout=3600)
                     viol = sorted(set(re.findall(r"assert=(\S+)", out)))
